@@ -12,43 +12,43 @@ import (
 )
 
 type CorpusEntry struct {
-	Name   string `json:"name"`
-	Class  string `json:"class"` // F G K M H
-	Spec   string `json:"spec"`  // spec text
-	SpecName string `json:"spec_name"`
-	HasConfig bool `json:"has_config"`
-	Config string `json:"config"`
+	Name      string `json:"name"`
+	Class     string `json:"class"` // F G K M H
+	Spec      string `json:"spec"`  // spec text
+	SpecName  string `json:"spec_name"`
+	HasConfig bool   `json:"has_config"`
+	Config    string `json:"config"`
 }
 
 type SiteInfo struct {
-	ID   int    `json:"id"`
-	File string `json:"file"`
-	Func string `json:"func"`
-	K    int    `json:"k"`
-	Kind string `json:"kind"`
-	Controlled bool `json:"controlled"`
+	ID         int    `json:"id"`
+	File       string `json:"file"`
+	Func       string `json:"func"`
+	K          int    `json:"k"`
+	Kind       string `json:"kind"`
+	Controlled bool   `json:"controlled"`
 }
 
 func (s SiteInfo) Key() string { return fmt.Sprintf("%s:%s:#%d", s.File, s.Func, s.K) }
 
 type Job struct {
-	Mode     string        `json:"mode"` // c12 | c19 | c19enum | replay | dethash
-	Seed     uint64        `json:"seed"`
-	Worker   int           `json:"worker"`
-	Workers  int           `json:"workers"`
-	Corpus   []CorpusEntry `json:"corpus"`
-	Sites    []SiteInfo    `json:"sites"`
-	CLI      string        `json:"cli"`
-	Scratch  string        `json:"scratch"`
-	BudgetS  float64       `json:"budget_s"`
-	MaxRuns  int           `json:"max_runs"`
-	KnownKeys []string     `json:"known_keys"`
-	CLIFrac  int           `json:"cli_per_1000"`
-	Out      string        `json:"out"`
-	Replay   *Replay       `json:"replay,omitempty"`
-	ShrinkS  float64       `json:"shrink_s"`
-	RunFrom  int           `json:"run_from"`
-	EnumLimit int          `json:"enum_limit"` // c19enum: stop after this many cases (0 = all)
+	Mode      string        `json:"mode"` // c12 | c19 | c19enum | replay | dethash
+	Seed      uint64        `json:"seed"`
+	Worker    int           `json:"worker"`
+	Workers   int           `json:"workers"`
+	Corpus    []CorpusEntry `json:"corpus"`
+	Sites     []SiteInfo    `json:"sites"`
+	CLI       string        `json:"cli"`
+	Scratch   string        `json:"scratch"`
+	BudgetS   float64       `json:"budget_s"`
+	MaxRuns   int           `json:"max_runs"`
+	KnownKeys []string      `json:"known_keys"`
+	CLIFrac   int           `json:"cli_per_1000"`
+	Out       string        `json:"out"`
+	Replay    *Replay       `json:"replay,omitempty"`
+	ShrinkS   float64       `json:"shrink_s"`
+	RunFrom   int           `json:"run_from"`
+	EnumLimit int           `json:"enum_limit"` // c19enum: stop after this many cases (0 = all)
 }
 
 type Replay struct {
@@ -56,8 +56,8 @@ type Replay struct {
 	FindingKey string               `json:"finding_key"`
 	Seed       uint64               `json:"seed"`
 	Run        int                  `json:"run"`
-	Invocation *gencore.Invocation  `json:"invocation,omitempty"`  // C12
-	Alphabet   []gencore.Invocation `json:"alphabet,omitempty"`    // C19
+	Invocation *gencore.Invocation  `json:"invocation,omitempty"`       // C12
+	Alphabet   []gencore.Invocation `json:"alphabet,omitempty"`         // C19
 	Other      *gencore.Invocation  `json:"other_invocation,omitempty"` // C12 history h=2
 	Tape       []uint32             `json:"tape"`
 	Masked     []int                `json:"masked,omitempty"`
@@ -74,26 +74,26 @@ type Violation struct {
 }
 
 type Result struct {
-	Mode        string            `json:"mode"`
-	Worker      int               `json:"worker"`
-	Runs        int               `json:"runs"`
-	WallS       float64           `json:"wall_s"`
-	Violations  []Violation       `json:"violations"`
-	Counters    map[string]int    `json:"counters"`
-	SiteStats   map[string]*SiteAgg `json:"site_stats,omitempty"`
-	Distinct    []uint64          `json:"distinct"` // hashes of distinct non-trivial cases
-	Samples     []json.RawMessage `json:"samples"`
-	Templates   map[string]int    `json:"templates,omitempty"`
-	LogHash     string            `json:"log_hash"` // hash over all per-run event logs (determinism)
-	Notes       []string          `json:"notes,omitempty"`
-	HarnessErr  string            `json:"harness_error,omitempty"`
-	Exhaustive  bool              `json:"exhaustive,omitempty"`
-	ReplayKey   string            `json:"replay_key,omitempty"`
+	Mode       string              `json:"mode"`
+	Worker     int                 `json:"worker"`
+	Runs       int                 `json:"runs"`
+	WallS      float64             `json:"wall_s"`
+	Violations []Violation         `json:"violations"`
+	Counters   map[string]int      `json:"counters"`
+	SiteStats  map[string]*SiteAgg `json:"site_stats,omitempty"`
+	Distinct   []uint64            `json:"distinct"` // hashes of distinct non-trivial cases
+	Samples    []json.RawMessage   `json:"samples"`
+	Templates  map[string]int      `json:"templates,omitempty"`
+	LogHash    string              `json:"log_hash"` // hash over all per-run event logs (determinism)
+	Notes      []string            `json:"notes,omitempty"`
+	HarnessErr string              `json:"harness_error,omitempty"`
+	Exhaustive bool                `json:"exhaustive,omitempty"`
+	ReplayKey  string              `json:"replay_key,omitempty"`
 }
 
 type SiteAgg struct {
 	Execs, MaxLen, Deviated, Orders int
-	Uncanon bool
+	Uncanon                         bool
 }
 
 func fatal(err error) {
